@@ -698,11 +698,166 @@ def rule_A(ctx):
               witness={}, node=ps.node, key='lookup')
 
 
+def rule_G(ctx):
+    """C06.G the routing of the repository's Network class (with Node, Edge and the priority_dict queue beneath it) interpreted on
+    small multigraphs and compared with Floyd-Warshall on the permitted arcs: single-pair distances, the all-pairs table for
+    cut-offs below / at / above the distances, the prepared table"""
+    from .. import netmodel
+    tier = getattr(ctx, 'tier', 'quick')
+    H = netmodel.Harness(ctx)
+    NETQ = netmodel.NET + '.Network'
+    fsd = ctx.prog.func(NETQ + '.shortest_distance')
+    fall = ctx.prog.func(NETQ + '.all_shortest_distances')
+    fprep = ctx.prog.func(NETQ + '.prepared_shortest_distance')
+    INF = netmodel.INF
+    found = {}
+    n_graphs = n_queries = 0
+
+    def same(a, b):
+        return isinstance(a, (int, float)) and not isinstance(a, bool) and abs(a - b) <= 1e-9 * max(1.0, abs(b))
+    for label, nodes, edges, layout in netmodel.families(tier):
+        n_graphs += 1
+        d = H.distances(nodes, edges)
+        desc = {'graph': label, 'edges (id, stored source, stored target, orientation, weight)': [list(e) for e in edges]}
+        net, pos, geom = H.build(nodes, edges, layout)
+        # single pairs, in two query orders on the same object (labels of an earlier search must not leak)
+        for s in nodes:
+            for t in nodes:
+                n_queries += 1
+                ok, got = H.guard(fsd, lambda: net.call('shortest_distance', s, t))
+                want = d[(s, t)]
+                if not ok:
+                    found.setdefault(('pair', 'fails'), (fsd, 'shortest_distance does not fail', dict(desc, query=[s, t], exception=got)))
+                elif want == INF:
+                    if not (isinstance(got, (int, float)) and got < 0):
+                        found.setdefault(('pair', 'sentinel'), (fsd, 'an unreachable target is reported by a negative distance', dict(desc, query=[s, t], returned=got)))
+                elif not same(got, want):
+                    found.setdefault(('pair', 'value'), (fsd, 'shortest_distance(s, t) is the minimum total weight over the walks that respect the orientations',
+                                                         dict(desc, query=[s, t], returned=got, minimum=want)))
+        # all-pairs tables
+        finite = sorted({v for v in d.values() if v != INF})
+        cuts = [1e300] + sorted({c for v in finite for c in (v - 0.5, v, v + 0.5) if c >= 0})[:7]
+        for cut in cuts:
+            n_queries += 1
+            ok, tab = H.guard(fall, lambda: net.call('all_shortest_distances', cut))
+            want = {(s, t): v for (s, t), v in d.items() if v <= cut}
+            if not ok:
+                found.setdefault(('all', 'fails'), (fall, 'all_shortest_distances does not fail', dict(desc, cut=cut, exception=tab)))
+                continue
+            if not isinstance(tab, dict):
+                found.setdefault(('all', 'table'), (fall, 'all_shortest_distances returns the table of pairs', dict(desc, cut=cut, returned=repr(tab)[:100])))
+                continue
+            missing = sorted((k for k in want if k not in tab), key=repr)
+            extra = sorted((k for k in tab if k not in want), key=repr)
+            wrong = sorted((k for k in want if k in tab and not same(tab[k], want[k])), key=repr)
+            if missing or extra or wrong:
+                found.setdefault(('all', 'table'), (fall, 'the table holds exactly the pairs whose shortest distance is at most the cut-off, with that distance',
+                                                    dict(desc, cut=cut, **{'pairs missing': [list(k) for k in missing][:4], 'pairs that should not be there': [list(k) for k in extra][:4],
+                                                                           'wrong values': [[list(k), tab[k], want[k]] for k in wrong][:4]})))
+        # prepared table
+        net2, _, _ = H.build(nodes, edges)
+        ok, _r = H.guard(fprep, lambda: net2.call('prepare', 1e300, False))
+        if not ok:
+            found.setdefault(('prepared', 'fails'), (fprep, 'prepare does not fail', dict(desc, exception=_r)))
+            continue
+        for s in nodes:
+            for t in nodes:
+                n_queries += 1
+                ok, got = H.guard(fprep, lambda: net2.call('prepared_shortest_distance', s, t))
+                want = d[(s, t)]
+                if not ok:
+                    found.setdefault(('prepared', 'fails'), (fprep, 'prepared_shortest_distance does not fail', dict(desc, query=[s, t], exception=got)))
+                elif want == INF:
+                    if not (isinstance(got, (int, float)) and (got < 0 or got >= 1e299)):
+                        found.setdefault(('prepared', 'value'), (fprep, 'a pair without a walk is reported as unreachable by the prepared table', dict(desc, query=[s, t], returned=got)))
+                elif not same(got, want):
+                    found.setdefault(('prepared', 'value'), (fprep, 'the prepared table answers every reachable pair with its shortest distance',
+                                                             dict(desc, query=[s, t], returned=got, minimum=want)))
+    # preparing again with a larger cut-off on the same network object: the table then holds every pair within the new cut-off
+    for label, nodes, edges, layout in [fm for fm in netmodel.families('quick') if fm[0].startswith(('chain A-B-C orientations (+0, +0) weights (1, 3)', 'diamond'))][:3]:
+        d = H.distances(nodes, edges)
+        finite = sorted({v for v in d.values() if v != INF and v > 0})
+        if len(finite) < 2:
+            continue
+        net3, _, _ = H.build(nodes, edges)
+        c1, c2 = finite[0], finite[-1]
+        ok, r_ = H.guard(fprep, lambda: (net3.call('prepare', c1, False), net3.call('prepare', c2, False)))
+        if not ok:
+            found.setdefault(('prepared', 'fails'), (fprep, 'prepare does not fail', {'graph': label, 'exception': r_}))
+            continue
+        for (s, t), v in sorted(d.items(), key=repr):
+            if v == INF or v > c2:
+                continue
+            n_queries += 1
+            ok, got = H.guard(fprep, lambda: net3.call('prepared_shortest_distance', s, t))
+            if not ok or not same(got, v):
+                found.setdefault(('prepared', 'again'), (fprep, 'after prepare(c1) then prepare(c2 > c1) on the same network the table answers every pair within c2',
+                                                         {'graph': label, 'edges': [list(e) for e in edges], 'cut-offs': [c1, c2], 'query': [s, t], 'returned': got, 'minimum': v}))
+    for (what, key), (f, descr, wit) in sorted(found.items()):
+        ctx.violation('C06.G', f, descr, wit, node=f.node, key='%s:%s' % (what, key))
+    for what, f in (('pair', fsd), ('all', fall), ('prepared', fprep)):
+        if not any(w_ == what for w_, _ in found):
+            ctx.ok('C06.G', f, '%s agrees with Floyd-Warshall on the permitted arcs of %d multigraphs (%d queries)' % (f.name, n_graphs, n_queries), node=f.node)
+    ctx.extra['C06.G graphs'] = n_graphs
+    ctx.extra['C06.G queries'] = n_queries
+
+
+def rule_PQ(ctx):
+    """C06.Q the priority queue (priority_dict, interpreted from the repository with its heap) on every sequence of at most five
+    operations over three keys: assign / re-assign a priority, pop the smallest - against a plain dictionary"""
+    import itertools
+    from .. import netmodel
+    H = netmodel.Harness(ctx)
+    fq = ctx.prog.func('tracklib.core.utils.priority_dict.pop_smallest')
+    keys = ['a', 'b', 'c']
+    ops = [('set', k, p) for k in keys[:2] for p in (1, 2, 3)] + [('set', 'c', 2), ('pop',), ('smallest',)]
+    bad = None
+    n_seq = 0
+    for L in (1, 2, 3, 4, 5):
+        for seq in itertools.product(ops, repeat=L):
+            if L >= 4 and (sum(1 for o in seq if o[0] != 'set') == 0 or seq[0][0] != 'set'):
+                continue
+            if L == 5 and seq.count(('pop',)) < 2:
+                continue
+            n_seq += 1
+            model = {}
+            ok, q = H.guard(fq, lambda: H.fn['priority_dict']())
+            if not ok:
+                raise shape_error('priority_dict() not constructible: %s' % q, fq.loc())
+            trace = []
+            for o in seq:
+                if o[0] == 'set':
+                    model[o[1]] = o[2]
+                    ok, r = H.guard(fq, lambda: orders.Obj.call(orders._Bound(q, q.repo_methods, H.fn), '__setitem__', o[1], o[2]))
+                    want = ('ok',)
+                    got = ('ok',) if ok else ('raises', r)
+                else:
+                    name = 'pop_smallest' if o[0] == 'pop' else 'smallest'
+                    ok, r = H.guard(fq, lambda: orders.Obj.call(orders._Bound(q, q.repo_methods, H.fn), name))
+                    if not model:
+                        want = ('raises',)
+                        got = ('raises',) if not ok else ('returns', r)
+                    else:
+                        m_ = min(model.values())
+                        want = ('one of', sorted(k for k, v in model.items() if v == m_))
+                        got = ('returns', r) if ok else ('raises', r)
+                        if ok and r in want[1]:
+                            got = want
+                            if o[0] == 'pop':
+                                del model[r]
+                trace.append((o, got))
+                if got != want or (ok and dict(q) != model):
+                    if bad is None:
+                        bad = {'operations': [list(o_) for o_ in seq[:len(trace)]], 'last outcome': repr(got), 'expected': repr(want),
+                               'queue content afterwards': dict(q), 'expected content': dict(model)}
+                    break
+    ctx.extra['C06.Q sequences'] = n_seq
+    ctx.check(bad is None, 'C06.Q', fq, 'priority_dict: smallest / pop_smallest return a key of currently minimal priority (re-assigned priorities included), pop removes it, '
+              'an empty queue raises (%d operation sequences)' % n_seq, witness=bad, node=fq.node, key='queue')
+
+
 RULES = [
-    ('C06.O', rule_O, 'quick'),
-    ('C06.N', rule_N, 'quick'),
-    ('C06.R', rule_R, 'quick'),
-    ('C06.Q', rule_Q, 'quick'),
-    ('C06.A', rule_A, 'quick'),
+    ('C06.G', rule_G, 'quick'),
+    ('C06.Q', rule_PQ, 'quick'),
 ]
-MIN_OBLIGATIONS = 18
+MIN_OBLIGATIONS = 4
